@@ -46,6 +46,8 @@ SITES = {
     "stringexpr": '<r><t tal:content="string:x${v}y">d</t></r>',
     "nameblock": '<r><p i18n:translate="">x <b i18n:name="n" tal:content="v">d</b> y</p></r>',
     "i18nattr_dq": '<r><t title="${v}" i18n:attributes="title"/></r>',
+    "content_translate": '<r><t tal:content="v" i18n:translate="">d</t></r>',
+    "replace_translate": '<r>x<t tal:replace="v" i18n:translate="">d</t>y</r>',
     # opt-outs
     "structure_kw": '<r><t tal:content="structure v">d</t></r>',
     "structure_expr": '<r>x${structure: v}y</r>',
@@ -53,7 +55,7 @@ SITES = {
     "cdata": '<r><![CDATA[x${v}y]]></r>',
     "textmode": 'x${v}y',
 }
-KINDS = ["str", "strsub", "bytes", "obj", "msg", "intsub", "floatsub"]
+KINDS = ["str", "strsub", "bytes", "obj", "msg", "intsub", "floatsub", "trkey"]
 
 
 class StrSub(str):
@@ -84,6 +86,15 @@ class Html:
 
     def __html__(self):
         return self.s
+
+
+class TrKey(str):
+    """a message id (a str subclass with harmless text) whose catalogue translation is the hostile text"""
+
+    def __new__(cls, s):
+        o = str.__new__(cls, "msgid")
+        o.s = s
+        return o
 
 
 class IntSub(int):
@@ -121,6 +132,8 @@ def make_value(kind, s):
         return Msg(s)
     if kind == "html":
         return Html(s)
+    if kind == "trkey":
+        return TrKey(s)
     if kind == "intsub":
         return IntSub(s)
     if kind == "floatsub":
@@ -129,7 +142,7 @@ def make_value(kind, s):
 
 
 def translate(msgid, domain=None, mapping=None, context=None, target_language=None, default=None):
-    if isinstance(msgid, Msg):
+    if isinstance(msgid, (Msg, TrKey)):
         return msgid.s
     if default is None:
         default = msgid
